@@ -481,7 +481,7 @@ def old_state(X, kind, k, variant=True, limit=1):
     """current state of a test flow of `kind`, with solver-chosen content variants, pushed back to version k"""
     f = F.base_flow(kind)
     if variant:
-        v = X.choose("variant", ["plain", "marked", "replay", "quic", "no-body", "tls"])
+        v = X.choose("variant", ["plain", "marked", "replay", "quic", "no-body", "tls", "tls-custom-sni"])
         if v == "marked":
             f.marked = ":default:"
         elif v == "replay":
@@ -490,6 +490,11 @@ def old_state(X, kind, k, variant=True, limit=1):
             f.client_conn.tls_version = f.server_conn.tls_version = "QUICv1"
         elif v == "no-body" and hasattr(f, "request") and kind.startswith("http"):
             f.request.content = None
+        elif v == "tls-custom-sni":
+            # the server name indication differs from the address host (transparent / reverse mode to an IP, custom SNI)
+            f.client_conn.tls = f.server_conn.tls = True
+            f.server_conn.sni = "sni.example.net"
+            X.reach("custom-sni")
         elif v == "tls":
             f.client_conn.tls = f.server_conn.tls = True
             f.server_conn.sni = "address"
